@@ -41,6 +41,46 @@ def crash_isolate(prop, r, sd, workdir):
     return None
 
 
+def hang_isolate(prop, r, sd, workdir):
+    """C04 restates 'returns a value' as bounded progress: a shard that hit the watchdog is re-run announcing each
+    case; if it stalls again, the last announced input is replayed alone with a 60 s limit; only if that single
+    call still does not return is it reported (anything else stays inconclusive)."""
+    job = r.job
+    old = job.timeout
+    job.timeout = job.budget + 45
+    try:
+        res = run_shard(job, r.idx, prop, sd, workdir, ["--announce", "1"])
+    finally:
+        job.timeout = old
+    if not res.timed_out:
+        return None
+    last = None
+    for line in res.stderr.splitlines():
+        if line.startswith("CASE "):
+            last = line[5:].strip()
+    if last is None:
+        return None
+    fmt, key = last.split(" ", 1)
+    if key.startswith("@"):
+        keyfile = key[1:]
+    else:
+        keyfile = os.path.join(workdir, "hang-%s-%d.case" % (job.name, r.idx))
+        open(keyfile, "w").write(key)
+    job.timeout = 60
+    try:
+        single = run_shard(job, 0, prop, sd, workdir, ["--case-file", keyfile, "--fmt", fmt])
+    finally:
+        job.timeout = old
+    if single.timed_out:
+        keep = os.path.join(REPLAYS, "%s-hang-%s.case" % (prop, job.name))
+        shutil.copyfile(keyfile, keep)
+        body = {"property": prop, "engine": job.engine, "config": job.cfg, "profile": job.prof, "instr": job.instr, "fmt": fmt,
+                "what": "a single call did not return within 60 s (bounded progress)", "case_key_file": keep}
+        path = write_replay(prop, sd, 600000 + r.idx, body)
+        return {"sig": "hang:%s:%s" % (job.cfg, fmt), "what": body["what"], "replay": path, "job": job.name}
+    return None
+
+
 def python_recheck(workdir, maxlines):
     logs = sorted(glob.glob(os.path.join(workdir, "*.log")))
     logs = [l for l in logs if os.path.getsize(l) > 0]
@@ -81,6 +121,10 @@ def generic(prop, tier, jobs, rule, assumptions, level="exploration", recheck=0,
             continue
         if not r.timed_out and r.job.engine == "eng_parse":
             v = crash_isolate(prop, r, sd, workdir)
+        if r.timed_out and r.job.engine == "eng_parse" and prop == "C04":
+            if sum(1 for x in violations if x.get("sig", "").startswith("hang:")) >= 2:
+                continue  # two isolated witnesses are enough; do not spend minutes on every stalled shard
+            v = hang_isolate(prop, r, sd, workdir)
         if v:
             violations.append(v)
         else:
@@ -837,8 +881,14 @@ def replay(prop, path):
         extra += ["--pair-file", kf, "--fmt", body.get("fmt", "f64")]
     for a in body.get("replay_args", []):
         extra.append(a)
+    if "did not return" in body.get("what", ""):
+        job.timeout = 60
     r = run_shard(job, 0, body.get("property", prop), seed(), workdir, extra)
     sys.stdout.write(r.stdout[-4000:])
+    if r.timed_out and "did not return" in body.get("what", ""):
+        print("replay: the call still does not return within 60 s")
+        print("VIOLATION property=%s replay=%s" % (prop, path))
+        return 1
     if r.summary is None:
         print("replay: engine ended abnormally (rc=%s)\n%s" % (r.rc, tail(r.stderr, 10)))
         print("VIOLATION property=%s replay=%s" % (prop, path))
